@@ -371,4 +371,61 @@ mod tests {
 #[allow(unused_imports, missing_docs, dead_code, unreachable_pub)]
 pub mod verif {
     use super::*;
+
+    /// Answer side of one `P2pCmd::HeaderExRequest`.
+    pub type Responder = oneshot::Sender<Result<Vec<ExtendedHeader>>>;
+
+    /// Receiving end of the command channel a session (or a `P2p`) writes to.
+    pub struct CmdRx(pub(crate) mpsc::Receiver<P2pCmd>);
+
+    impl CmdRx {
+        /// Next already queued header-ex request, if any (other commands are dropped).
+        pub fn try_next(&mut self) -> Option<(HeaderRequest, Responder)> {
+            loop {
+                match self.0.try_recv().ok()? {
+                    P2pCmd::HeaderExRequest {
+                        request,
+                        respond_to,
+                    } => return Some((request, respond_to)),
+                    _ => continue,
+                }
+            }
+        }
+
+        /// Close the channel (later sends fail with `WorkerDied`).
+        pub fn close(&mut self) {
+            self.0.close()
+        }
+    }
+
+    /// The real `HeaderSession` on a command channel owned by the caller.
+    pub struct Session(HeaderSession);
+
+    pub fn session(start: u64, end: u64, channel_capacity: usize) -> (Session, CmdRx) {
+        let (tx, rx) = mpsc::channel(channel_capacity);
+        (Session(HeaderSession::new(start..=end, tx)), CmdRx(rx))
+    }
+
+    impl Session {
+        pub fn batch_size(&self) -> u64 {
+            self.0.batch_size
+        }
+
+        pub fn run(&mut self) -> BoxFuture<'_, Result<Vec<ExtendedHeader>>> {
+            self.0.run().boxed()
+        }
+    }
+
+    /// `take_next_batch` over plain pairs: (remaining range, batch).
+    pub fn take_next_batch_pairs(
+        range: Option<(u64, u64)>,
+        limit: u64,
+    ) -> (Option<(u64, u64)>, Option<(u64, u64)>) {
+        let mut range = range.map(|(s, e)| s..=e);
+        let batch = take_next_batch(&mut range, limit);
+        (
+            range.map(|r| (*r.start(), *r.end())),
+            batch.map(|r| (*r.start(), *r.end())),
+        )
+    }
 }
